@@ -168,3 +168,41 @@ Proof.
 Qed.
 Example C06_affine_instance : affine3 (fun p => 2 * wx p - wy p + 3).
 Proof. exists 2, (-1), 0, 3. intros p. ring. Qed.
+
+(* ---------------------------------------------------------------- syntactic tie to the Go source
+   Generated/RenderExpr.v is re-translated from the Go AST of the current source tree on every run
+   (harness/rendergen); Render/GenEqRender.v and Render/GenEqMC.v prove the generated definitions equal to the model the
+   theorems above are about, for all arguments over an arbitrary Ops (all of them: Props/TRANSLR.v).
+   Each theorem below breaks when the Go function it is named after changes what it computes. *)
+From Coq Require Import ZArith List.
+Import ListNotations.
+From Sdfx Require Num.Ops Geo.Vec Geo.Box Render.Interp Render.Octree Render.Sample Generated.RenderExpr Render.GenEqRender Render.GenEqMC.
+Import Num.Ops Geo.Vec.
+
+Theorem C06_TRANSL_mcInterpolate : forall (O : Ops) (p1 p2 : V3 O) (v1 v2 x : T O),
+    RenderExpr.rg_render_mcInterpolate p1 p2 v1 v2 x = Interp.mc_interpolate p1 p2 v1 v2 x.
+Proof. exact (@GenEqRender.mcInterpolate_eq). Qed.
+Print Assumptions C06_TRANSL_mcInterpolate.
+
+Theorem C06_TRANSL_mcToTriangles : forall (O : Ops) (p0 p1 p2 p3 p4 p5 p6 p7 : V3 O) (v0 v1 v2 v3 v4 v5 v6 v7 x : T O),
+    RenderExpr.rg_render_mcToTriangles [p0; p1; p2; p3; p4; p5; p6; p7] [v0; v1; v2; v3; v4; v5; v6; v7] x =
+    Interp.mc_to_triangles (Octree.sel8 p0 p1 p2 p3 p4 p5 p6 p7) (Octree.sel8 v0 v1 v2 v3 v4 v5 v6 v7) x.
+Proof. exact (@GenEqMC.mcToTriangles_eq). Qed.
+Print Assumptions C06_TRANSL_mcToTriangles.
+
+Theorem C06_TRANSL_marchingCubes_lattice_prefix : forall (O : Ops) (box : Geo.Box.Box3 O) (step : T O),
+    RenderExpr.rg_render_marchingCubes box step =
+    (Sample.lbase (Sample.mc_lattice box step), Sample.linc (Sample.mc_lattice box step), Sample.lsteps (Sample.mc_lattice box step)).
+Proof. exact (@GenEqRender.marchingCubes_lattice_eq). Qed.
+Print Assumptions C06_TRANSL_marchingCubes_lattice_prefix.
+
+Theorem C06_TRANSL_MarchingCubesUniform_box_prefix : forall (O : Ops) (meshCells : Z) (bb0 : Geo.Box.Box3 O),
+    RenderExpr.rg_render_MarchingCubesUniform_Render meshCells bb0 = Sample.mcu_box bb0 meshCells.
+Proof. exact (@GenEqRender.mcu_box_eq). Qed.
+Print Assumptions C06_TRANSL_MarchingCubesUniform_box_prefix.
+
+Theorem C06_TRANSL_layerYZ_Get : forall (O : Ops) (L : Sample.lattice3 O) (v0 v1 : list (T O)) (x : Z) (y z : nat),
+    (0 <= snd (Sample.lsteps L))%Z ->
+    RenderExpr.rg_render_layerYZ_Get (Sample.lsteps L) v0 v1 x (Z.of_nat y) (Z.of_nat z) = Sample.lget L (if (x =? 0)%Z then v0 else v1) y z.
+Proof. exact (@GenEqRender.layerYZ_Get_eq). Qed.
+Print Assumptions C06_TRANSL_layerYZ_Get.
